@@ -21,7 +21,12 @@ def chunk (m : Nat) : Nat → List Int → List Pt
   | n + 1, l => l.take m :: chunk m n (l.drop m)
 
 def step (line : String) : String :=
-  let toks := (line.trimAscii.toString.splitOn " ").filter (· ≠ "")
+  let toks0 := (line.trimAscii.toString.splitOn " ").filter (· ≠ "")
+  -- `q<den>`: the C++ runs on the coordinates divided by den and reports volumes times den^m; by homogeneity and
+  -- scale invariance (Lemmas/Scale.lean, Lemmas/RatLift.lean) that is the line computed on the integer numerators
+  let toks := match toks0 with
+    | t :: rest => if t.startsWith "q" && t.length > 1 then rest else toks0
+    | [] => toks0
   match toks with
   | [] => ""
   | op :: args =>
